@@ -260,7 +260,7 @@ class JSONSerialization(Serialization):
     def selector_schema(cls, p, safe=False):
         try:
             allowed_types = [{'type': cls.json_schema_literal_types[type(obj)]}
-                             for obj in p.objects.values()]
+                             for obj in p.objects]
             if not allowed_types:
                 # "anyOf" must not be empty; nothing is known about the objects
                 return {}
